@@ -40,10 +40,11 @@ def split_key(k):
 
 
 class Row:
-    __slots__ = ("nodes", "facts", "effects", "end", "value")
+    __slots__ = ("nodes", "facts", "effects", "end", "value", "tests")
 
     def __init__(self):
         self.nodes, self.facts, self.effects, self.end, self.value = (), [], [], None, None
+        self.tests = []          # [(test node, edge label)] in path order, for rules that re-expand a test under path-specific assumptions
 
     def fact(self, pred):
         """truth of the first fact whose (key, ast) satisfies pred, else None"""
@@ -98,6 +99,12 @@ def _changes_state(n):
     return False
 
 
+def _pure_local(atom):
+    """the atom reads only local names / parameters and constants (no attribute, subscript or call): nothing but a re-assignment can
+    change it, and a re-assignment changes its expanded form"""
+    return not any(isinstance(x, (ast.Attribute, ast.Subscript, ast.Call)) for x in ast.walk(atom))
+
+
 def table(fl, limit=4000, keep_infeasible=False):
     """[Row] for every feasible acyclic path of fl's function"""
     cfg = fl.cfg
@@ -111,9 +118,10 @@ def table(fl, limit=4000, keep_infeasible=False):
             if n.kind == "edge":
                 t = n.test
                 if t.kind == "test":
+                    r.tests.append((t, n.label))
                     for a, tr in edge_facts(fl.expand(t.expr, t), n.label):
                         k, tv = atom_key(a, tr)
-                        if k in seen and seen[k][0] != tv and not any(_changes_state(x) for x in path[seen[k][1]:pos]):
+                        if k in seen and seen[k][0] != tv and (_pure_local(a) or not any(_changes_state(x) for x in path[seen[k][1]:pos])):
                             feasible = False
                         seen.setdefault(k, (tv, pos))
                         r.facts.append((k, tv, a, t))
